@@ -14,7 +14,10 @@ every feature of a contour object is independent of what was computed
 from that object before; translation/axis-swap/rotation laws of the inertia
 features; scaling/orientation/translation laws and convergence of the
 volume; brightness statistics recomputed with exact fractions, offsets
-one-to-one; spill followed by correction is the identity.
+one-to-one; spill followed by correction is the identity; vol_revolve and
+get_volume equal their definition (truncated-cone sums of the closed contour,
+average of upper and lower half, nan below four points) recomputed with
+exact fractions.
 """
 import json
 import math
@@ -531,7 +534,10 @@ def gen_volume(rng, pool_contours):
     if pool_contours and rng.random() < 0.6:
         pts = [list(map(int, p)) for p in rng.choice(pool_contours)]
     else:
-        pts = simple_polygon(rng, rng.randint(2, 20), rng.randint(2, 30),
+        # sizes around the documented limit of four points: 3, 4, 5
+        n = rng.choice([2, 3, 3, 4, 4, 4, 5, 5, rng.randint(6, 20),
+                        rng.randint(6, 20), rng.randint(6, 20)])
+        pts = simple_polygon(rng, n, rng.randint(2, 30),
                              rng.randint(10, 100), rng.randint(10, 50))
     xs = [p[0] for p in pts]
     ys = [p[1] for p in pts]
@@ -996,6 +1002,37 @@ def do_rotation(ctx, case):
     ctx.run.count("rotation")
 
 
+def exact_cone_sum(r, z):
+    """The definition of vol_revolve in exact arithmetic (model
+    independent): the contour is closed if it is open, every segment adds
+    h/3 * (r^2 + r R + R^2) with signed height h.  Returns the coefficient
+    of pi (point_scale 1)."""
+    r = [Fraction(v) for v in r]
+    z = [Fraction(v) for v in z]
+    if r[-1] != r[0] or z[-1] != z[0]:
+        r.append(r[0])
+        z.append(z[0])
+    tot = Fraction(0)
+    for i in range(len(r) - 1):
+        tot += (z[i + 1] - z[i]) * (r[i] * r[i] + r[i] * r[i + 1]
+                                    + r[i + 1] * r[i + 1])
+    return tot / 3
+
+
+def exact_volume(pts, cx, cy):
+    """The definition of get_volume (coefficient of pi * pix^3), None = nan:
+    contours of fewer than four points have no volume; otherwise the average
+    of the revolved upper (r >= 0) and lower (r <= 0, mirrored, traversed
+    backwards) halves around the axis through the centroid."""
+    if len(pts) < 4:
+        return None
+    rr = [Fraction(p[1]) - cy for p in pts]
+    zz = [Fraction(p[0]) - cx for p in pts]
+    right = exact_cone_sum([max(v, 0) for v in rr], zz)
+    left = exact_cone_sum([-min(v, 0) for v in rr][::-1], zz[::-1])
+    return (right + left) / 2
+
+
 def call_vol_revolve(r, z, ps, g=None):
     from dclab.features.volume import vol_revolve
     if g is not None:
@@ -1025,6 +1062,17 @@ def do_volrev(ctx, case):
         return None
     ctx.add("run_vol_revolve", "(%s, %s, 1)" % (zl(case["r8"]), zl(case["z8"])),
             case, chk)
+    # oracle: the definition in exact arithmetic (model independent)
+    valid = (len(case["r8"]) == len(case["z8"]) and len(case["r8"]) >= 3
+             and min(case["r8"]) >= 0)
+    if valid:
+        want = float(exact_cone_sum([Fraction(x, 8) for x in case["r8"]],
+                                    [Fraction(x, 8) for x in case["z8"]])
+                     ) * math.pi * ps ** 3
+        if v is None or not abs(v - want) <= 1e-9 * max(abs(want),
+                                                        _vscale(case, ps)):
+            ctx.fail(case, "vol_revolve = %r, the truncated-cone sum of this "
+                     "contour is %r" % (v, want))
     # oracle laws
     if v is not None:
         sc = _vscale(case, ps)
@@ -1091,6 +1139,20 @@ def do_volume(ctx, case):
     ctx.add("run_get_volume", "(8, %s, %s, %s)" % (
         common.zlit(case["cx8"]), common.zlit(case["cy8"]), r_pts(pts)),
         case, chk)
+    # oracle: the definition in exact arithmetic (model independent); a
+    # contour of four or more points has a (finite) volume
+    wantc = exact_volume(pts, Fraction(case["cx8"], 8),
+                         Fraction(case["cy8"], 8))
+    if wantc is None:
+        if not math.isnan(v):
+            ctx.fail(case, "get_volume = %r for a contour of %d points "
+                     "(fewer than four: nan)" % (v, len(pts)))
+    else:
+        want = float(wantc) * math.pi * pix ** 3
+        if not abs(v - want) <= 1e-9 * max(abs(want), sc):   # nan fails
+            ctx.fail(case, "get_volume = %r for a contour of %d points; the "
+                     "average of its revolved upper and lower halves is %r"
+                     % (v, len(pts), want))
     if not math.isnan(v):
         s = case["s"]
         t = np.array(case["t"])
@@ -1109,6 +1171,7 @@ def do_volume(ctx, case):
                     name, got, want))
     ctx.run.record_case(case, not math.isnan(v) and v != 0)
     ctx.run.count("volume:" + case["container"])
+    ctx.run.count("volume:npoints=%s" % (len(pts) if len(pts) <= 5 else ">5"))
 
 
 def do_sphere(ctx, case):
@@ -2038,6 +2101,17 @@ def shrink(run, failure):
                         rows, desc, changed = cand, d, True
                         break
         best = dict(case, rows=rows)
+    elif kind == "volume":
+        pts = list(case["pts"])
+        changed = True
+        while changed and len(pts) > 1:
+            changed = False
+            for i in range(len(pts)):
+                cand = dict(best, pts=pts[:i] + pts[i + 1:])
+                d = fails(cand)
+                if d:
+                    pts, best, desc, changed = cand["pts"], cand, d, True
+                    break
     elif kind == "sequence":
         ops = list(case["ops"])
         changed = True
